@@ -26,7 +26,7 @@ func externalWriter(f *ssa.Function, i int) bool {
 		return false
 	}
 	pk := funcPkgPath(f)
-	name := f.Name()
+	name := core.FuncName(f)
 	switch pk {
 	case "encoding/binary":
 		// (bigEndian).PutUint16(b, v): receiver is param 0, b is param 1
